@@ -86,6 +86,37 @@ def gen_cases(chk):
     for _ in range(1000 if quick else 30000):
         add("dec_random", "decenc", rng.getrandbits(64))
         add("dec_random", "dec", rng.getrandbits(64))
+    # ---- generator audit 2026-10-02 (directed; they come last so that the random families above draw what they drew before)
+    # 8. the numbers GDSII files actually hold (units, right angles, small integers, decimal fractions) and the constants of the
+    #    crate's own test: a fast path or a table for "usual" values would sit exactly here
+    common = [1e-3, 1e-9, 1e-6, 1e-12, 1e-11, 5e-4, 0.1, 0.2, 0.25, 0.5, 0.75, 1.5, 2.5, 10.0, 100.0, 1000.0, 1e6, 1e9, 22.5, 30.0, 45.0, 60.0,
+              90.0, 135.0, 180.0, 270.0, 315.0, 360.0, 0.69, 33.33e-33, 3.141592653589793, 2.718281828459045, 1 / 3, 2 / 3] + [float(i) for i in range(1, 21)]
+    for x in common:
+        add("common_values", "encdec", f2b(x))
+        add("common_values", "encdec", f2b(-x))
+    # 9. around every power of sixteen at distances of 8 ulp .. 2^40 ulp: the exponent estimate 0.25*log2(x) is off by one for
+    #    every double within about 4|k|*2^-53 (relative) of 16^k, i.e. up to ~90 ulp away for the outer exponents; family 1 stops at 3 ulp
+    for k in range(-65, 64):
+        base = (4 * k + 1023) << 52
+        for i in ((3, 5, 7, 9, 12, 20, 40) if quick else range(2, 52)):
+            add("near_pow16_wide", "encdec", base - (1 << i))
+            add("near_pow16_wide", "encdec", base + (1 << i))
+            if k % 8 == 0:
+                add("near_pow16_wide", "encdec", (1 << 63) | (base - (1 << i)))
+    # 10. words whose mantissa is zero although sign / exponent are not (they denote zero; not normalised, so only the
+    #     correspondence speaks), and un-normalised words with many mantissa bits
+    for e in (0, 1, 0x3F, 0x40, 0x41, 0x7F):
+        for sg in (0, 1):
+            add("dec_zero_mantissa", "decenc", (sg << 63) | (e << 56))
+            add("dec_zero_mantissa", "dec", (sg << 63) | (e << 56))
+    for _ in range(200 if quick else 5000):
+        z = rng.choice([1, 1, 2, 3, 6, 13])                       # leading zero nibbles
+        add("dec_unnormalised", "decenc", (rng.getrandbits(1) << 63) | (rng.randrange(128) << 56) | rng.getrandbits(56 - 4 * z))
+    # 11. negative powers of two at every exponent (family 1 has the negative neighbourhoods of the powers of sixteen only in quick)
+    if quick:
+        for j in range(-262, 254):
+            if j % 4:
+                add("near_pow2_neg", "encdec", (1 << 63) | ((j + 1023) << 52))
     return cases, dist
 
 def coq_item(c, r):
@@ -134,7 +165,7 @@ def run(chk, replay=None):
         cases, dist = gen_cases(chk)
     chk.cov["input_distribution"] = dist
     chk.cov["rule"] = ("doubles / GDSII words generated per DESIGN.md C15 (near powers of two and sixteen, 1-2 bit and rounding mantissas, "
-                       "<=53-bit normalised reals, random); a case is non-trivial when the word/double is non-zero; distinct by (op, bits)")
+                       "<=53-bit normalised reals, random; usual values, wide neighbourhoods of the powers of sixteen, zero-mantissa and un-normalised words); a case is non-trivial when the word/double is non-zero; distinct by (op, bits)")
     results = evaluate(chk, cases, "c15")
     chk.cov["evaluations"] = len(cases)
     chk.cov["distinct_nontrivial"] = len({(c["op"], c["a"]) for c in cases if c["a"] not in (0, 1 << 63)})
